@@ -382,6 +382,14 @@ func instrumentPackage(p *packages.Package, simPath string, callable *types.Inte
 							}
 						}
 					}
+				case "runtime":
+					if name == "ReadMemStats" {
+						c.Replace(simSel("ReadMemStats"))
+						rep.Rewrites["runtime.ReadMemStats"]++
+						usedSim = true
+					} else if name == "NumGoroutine" || name == "NumCPU" || name == "GOMAXPROCS" {
+						rep.Unmodelled = append(rep.Unmodelled, fmt.Sprintf("%s: runtime.%s", fset.Position(n.Pos()), name))
+					}
 				case "crypto/rand", "unsafe", "sync", "sync/atomic", "os/exec", "os/signal", "net", "syscall":
 					rep.Unmodelled = append(rep.Unmodelled, fmt.Sprintf("%s: %s.%s", fset.Position(n.Pos()), pp, name))
 				}
